@@ -153,6 +153,15 @@ def tracker_case(c):
         if k == "topauli":
             cls = pt.xz_to_pauli(c["x"], c["z"])
             return {qp.I: "I", qp.X: "X", qp.Y: "Y", qp.Z: "Z"}[cls]
+        if k == "track":
+            # iterate the real commute_clifford_op over a Clifford circuit, updating the frame on the gate's wires
+            F = [tuple(t) for t in c["frame"]]
+            for g in c["gates"]:
+                op = GATES[g[0]](wires=g[1:])
+                new = pt.commute_clifford_op(op, [F[w] for w in g[1:]])
+                for w, t in zip(g[1:], new):
+                    F[w] = (int(t[0]), int(t[1]))
+            return [[int(x), int(z)] for x, z in F]
         if k == "byprod":
             ops = [mk_op(g) for g in c["ops"]]
             tape = qp.tape.QuantumScript(ops, [qp.sample(wires=c["mw"])], shots=10)
